@@ -1,6 +1,86 @@
-(** Entry points for C13 (stub: replaced by the property's own entry file). *)
-From Coq Require Import ZArith List.
-From GV Require Import Base.Val.
+(** Entry points for C13 (multi-file signature computation).
+
+    wire formats   fres     : (0 sig) with sig a list of ints | (1 code)
+                   task     : (handle fres)
+                   outcome  : (0 (sig ...)) Done | (1 code) Raised | (3 1) AssertFailed |
+                              (3 2) KeyErr | (3 3) IndexErr | (3 4) BadConcurrency
+                   concurrency : 0 None | 1 threads | 2 processes | 3 anything else *)
+From Coq Require Import ZArith List Bool.
+From GV Require Import Base.Val Spec.C13 Model.C13.
+Import ListNotations.
 Open Scope Z_scope.
 
-Definition dispatch (op : Z) (a : val) : val := vbad.
+Definition sig := list Z.
+
+Definition to_fres (v : val) : option (fres sig) :=
+  match v with
+  | VL [VI 0; s] => Some (FOk (to_Zs s))
+  | VL [VI 1; VI c] => Some (FErr c)
+  | _ => None
+  end.
+
+Fixpoint all_some {X} (l : list (option X)) : option (list X) :=
+  match l with
+  | [] => Some []
+  | None :: _ => None
+  | Some x :: r => match all_some r with Some r' => Some (x :: r') | None => None end
+  end.
+
+Definition to_task (v : val) : option (task sig) :=
+  match v with
+  | VL [VI h; r] => match to_fres r with Some f => Some (h, f) | None => None end
+  | _ => None
+  end.
+
+Definition to_tasks (v : val) : option (list (task sig)) := all_some (map to_task (to_list v)).
+Definition to_fress (v : val) : option (list (fres sig)) := all_some (map to_fres (to_list v)).
+
+Definition vsig (s : sig) : val := VL (map VI s).
+
+Definition voutcome (o : outcome sig) : val :=
+  match o with
+  | Done sigs => vok (vlist vsig sigs)
+  | Raised c => verr c
+  | AssertFailed => VL [VI 3; VI 1]
+  | KeyErr => VL [VI 3; VI 2]
+  | IndexErr => VL [VI 3; VI 3]
+  | BadConcurrency => VL [VI 3; VI 4]
+  end.
+
+Definition to_conc (z : Z) : concurrency :=
+  match z with 0 => CNone | 1 => CThreads | 2 => CProcesses | _ => COther end.
+
+Definition dispatch (op : Z) (a : val) : val :=
+  match op with
+  (* 1: run_executor (tasks sigma) *)
+  | 1 => match a with
+         | VL [t; s] => match to_tasks t with Some ts => voutcome (run_executor ts (to_Zs s)) | None => vbad end
+         | _ => vbad
+         end
+  (* 2: run_sequential (fres ...) *)
+  | 2 => match to_fress a with Some rs => voutcome (run_sequential rs) | None => vbad end
+  (* 3: calc_file_signatures (concurrency supplied tasks sigma) *)
+  | 3 => match a with
+         | VL [VI c; sup; t; s] =>
+             match to_tasks t with
+             | Some ts => voutcome (calc_file_signatures (to_conc c) (to_bool sup) ts (to_Zs s))
+             | None => vbad
+             end
+         | _ => vbad
+         end
+  (* 4: specification: the in-order list, if every file is readable *)
+  | 4 => match to_fress a with Some rs => vopt (vlist vsig) (spec_sigs rs) | None => vbad end
+  (* 5: the excluded variant (append as completed) *)
+  | 5 => match a with
+         | VL [t; s] => match to_tasks t with Some ts => voutcome (run_append_as_completed ts (to_Zs s)) | None => vbad end
+         | _ => vbad
+         end
+  (* 6: completion order of a w-worker pool: (w durs handles) *)
+  | 6 => match a with
+         | VL [VI w; d; h] => VL (map VI (pool_order (Z.to_nat w) (to_nats d) (to_Zs h)))
+         | _ => vbad
+         end
+  (* 7: exception codes of the unreadable files *)
+  | 7 => match to_fress a with Some rs => VL (map VI (err_codes rs)) | None => vbad end
+  | _ => vbad
+  end.
